@@ -477,6 +477,25 @@ def check(ctx: Ctx) -> list[RuleResult]:
         r5.fail(f"{we2.short}:early-reply-ignored", we2.loc(), "the proper reply, arriving before the echo and addressed to the command's sender (literally, or to the gateway's real id for a command built with the 18:000730 placeholder), is not taken as the reply: " + tabe.describe({k: v for k, v in lost[0].items() if k != "__effects__"})[:300])
     else:
         r5.ok({"WantEcho": "a reply that overtakes the echo is accepted iff header == rx_header and it is addressed to the sender (incl. placeholder/real gateway id)", "rows": len(rows_e)})
+    # completeness for the echo itself: a packet whose header equals the command's echo header *is* the echo, whatever its source
+    # field says - the gateway writes its real id there in place of the 18:000730 placeholder, and the library may not even know that
+    # id yet (no signature echo was seen). Every row in which the echo-header equality holds moves the machine on (to WantRply, or to
+    # idle with the echo as the result); a row that is turned away on some other test (the packet's src, say) loses genuine echoes
+    r5.instances += 1
+    r5.nontrivial += 1
+    tx_atoms = [k for k in tabe.atoms if "tx_header" in k and "==" in k]
+    if not tx_atoms:
+        raise AnalysisError(f"WantEcho.pkt_rcvd: no test of pkt._hdr against the echo header found (atoms: {tabe.atoms})")
+    # read off the *leaves* of the decision tree (the atoms a path actually evaluated): filled-in don't-care values say nothing
+    pe2 = PredEval(ctx, we2, domains={"self._sent_cmd.src.id": [hgi]})
+    pe2.table()
+    echo_rows = [({**env, **aenv, "__effects__": eff}, res) for env, aenv, res, eff in pe2.leaves if any(aenv.get(k) for k in tx_atoms)]
+    dropped = [a for a, r in echo_rows if not any("set_state(" in e for e in a["__effects__"]) and not (isinstance(r, tuple) and r and r[0] == "raise")]
+    if dropped:
+        why = sorted(k for k, v in dropped[0].items() if isinstance(k, str) and k not in tx_atoms and k != "__effects__" and v in (True, False) and k in tabe.atoms)
+        r5.fail(f"{we2.short}:echo-turned-away", we2.loc(), "a packet whose header equals the command's echo header is not taken as the echo in every case: " + tabe.describe({k: v for k, v in dropped[0].items() if k != "__effects__"})[:300] + f" (the outcome also depends on {why[:3]}): with the gateway's real id unknown or substituted, genuine echoes are ignored and every send times out")
+    else:
+        r5.ok({"WantEcho": "header == echo header always moves the machine on", "rows": len(echo_rows)})
     out.append(r5)
     return out
 
